@@ -61,7 +61,38 @@ pub fn clear_offsets() -> u64 {
     })
 }
 
+thread_local! {
+    /// Explicit storage directives: bit string -> (offset, junk bits stored before the live bits).
+    static STORAGE: std::cell::RefCell<std::collections::HashMap<String, (u8, String)>> = std::cell::RefCell::new(std::collections::HashMap::new());
+}
+
+pub fn set_storage(v: &[(String, u8, String)]) {
+    STORAGE.with(|m| {
+        let mut m = m.borrow_mut();
+        m.clear();
+        for (k, o, j) in v {
+            m.insert(k.clone(), (*o, j.clone()));
+        }
+    });
+}
+
 fn bools_to_input(b: &[bool]) -> IdpfInput {
+    let key: String = b.iter().map(|x| if *x { '1' } else { '0' }).collect();
+    if let Some((o, junk)) = STORAGE.with(|m| m.borrow().get(&key).cloned()) {
+        use bitvec::prelude::*;
+        let mut bv: BitVec<usize, Lsb0> = BitVec::new();
+        for c in junk.bytes().take(o as usize) {
+            bv.push(c == b'1');
+        }
+        while bv.len() < o as usize {
+            bv.push(false);
+        }
+        for x in b {
+            bv.push(*x);
+        }
+        OFFSETS.with(|t| t.borrow_mut().2 += 1);
+        return IdpfInput::from(bv[o as usize..].to_bitvec());
+    }
     let off = OFFSETS.with(|o| {
         let mut o = o.borrow_mut();
         if o.0.is_empty() {
